@@ -24,6 +24,10 @@ def build_template(ctx):
     plotgen.materialize(p, os.path.join(root, "plt00010"))
     q = dict(p); q["fields"] = ["pressure", "mach"]; q["data"] = {"mode": "smallint", "seed": 77}
     plotgen.materialize(q, os.path.join(root, "plt00020"))
+    # same mesh as plt00010, boxes distributed differently over the binary files (combine then works box by box)
+    q4 = dict(p); q4["fields"] = ["vort", "mixfrac"]; q4["data"] = {"mode": "smallint", "seed": 78}
+    q4["layout"] = [[[(f + 1 + b) % 2, -k] for b, (f, k) in enumerate(lay)] for lay in p["layout"]]
+    plotgen.materialize(q4, os.path.join(root, "plt00040"))
     p2 = plotgen.random_spec(rng, ndims=2, nlev=2, nf=2, data="smallint", B=2, nblk=[2, 2])
     p2["fields"] = ["density", "temp"]
     plotgen.materialize(p2, os.path.join(root, "plt2d00030"))
@@ -35,7 +39,7 @@ def build_template(ctx):
     return root
 
 
-INPUTS = ["plt00010", "plt00020", "plt2d00030", "chk00005", "restart7"]
+INPUTS = ["plt00010", "plt00020", "plt00040", "plt2d00030", "chk00005", "restart7"]
 
 
 def form_path(root, name, form):
@@ -62,6 +66,10 @@ def invocations():
                 "plt2d00030", ["explicit-rel"]))
     inv.append(("combine", lambda r, f, o: tools.combine(P(r, "plt00010", f), P(r, "plt00020", f), O(r, o, "out_cmb")),
                 "plt00010", ["explicit-rel", "explicit-abs", "default"]))
+    inv.append(("combine-bybox", lambda r, f, o: tools.combine(P(r, "plt00010", f), P(r, "plt00040", f), O(r, o, "out_cmb4")),
+                "plt00010", ["explicit-rel", "default"]))
+    inv.append(("combine-bybox-swapped", lambda r, f, o: tools.combine(P(r, "plt00040", f), P(r, "plt00010", f), O(r, o, "out_cmb5")),
+                "plt00040", ["explicit-abs"]))
     inv.append(("chef", lambda r, f, o: tools.chef(P(r, "plt00010", f), os.path.join(r, "rec.py"), O(r, o, "out_ck"), kept="temp"),
                 "plt00010", ["explicit-rel", "default"]))
     inv.append(("chef-serial", lambda r, f, o: tools.chef(P(r, "plt00010", f), os.path.join(r, "rec.py"), O(r, o, "out_cks"), serial=True),
@@ -161,7 +169,7 @@ def allowed_roots(root, tool, out_kind, inp_name):
     if out_kind == "none":
         return []
     if out_kind != "default":
-        return [os.path.join(root, n) for n in ("out_col", "out_col2", "out_cmb", "out_ck", "out_cks", "out_arr", "out_slc", "out_arr2",
+        return [os.path.join(root, n) for n in ("out_col", "out_col2", "out_cmb", "out_cmb4", "out_cmb5", "out_ck", "out_cks", "out_arr", "out_slc", "out_arr2",
                                                 "out_grid", "out_plt")]
     # documented defaults: beside the input (same parent directory) or in the working directory, never inside the input
     base = tool.split("-")[0]
@@ -170,7 +178,7 @@ def allowed_roots(root, tool, out_kind, inp_name):
     if base == "marinate":
         return [os.path.join(root, inp_name + ".pkl")]
     if base == "combine":
-        return [os.path.join(root, "plt00010plt00020")]
+        return [os.path.join(root, "plt00010plt00040" if "bybox" in tool else "plt00010plt00020")]
     if base == "chk2plt":
         return [os.path.join(root, inp_name.replace("chk", "plt") if "chk" in inp_name else inp_name + "_plt")]
     if base == "mandoline":
@@ -190,7 +198,7 @@ def model_default(rep, case, root, template, tool, form, inp_name):
     if len(new) != 1:
         rep.tie(f"{tool}: expected one new entry beside the inputs, found {new}", case); return
     arg = form_path(root, inp_name, form)
-    req = {"op": "paths", "path": arg, "path2": form_path(root, "plt00020", form)}
+    req = {"op": "paths", "path": arg, "path2": form_path(root, "plt00040" if "bybox" in tool else "plt00020", form)}
     if base == "mandoline":
         name = new[0][:-4] if new[0].endswith(".npz") else new[0]
         req["slicename"] = name.rsplit("_", 1)[0]
@@ -233,7 +241,7 @@ def run(ctx, rep, model=True):
             N = inj.n
             ks = list(range(N))
             if N > fault_budget:
-                ks = sorted(set([0, 1, N - 1, N - 2] + ctx.rng.sample(range(N), fault_budget - 4)))
+                ks = audit.stratified(inj.sites, fault_budget, ctx.rng)
             rep.extra.setdefault("write_side_calls", {})[f"{tool}/{out_kind}"] = N
             for k in ks:
                 case = {"tool": tool, "form": form, "out": out_kind, "scenario": "fault", "k": k}
